@@ -154,6 +154,8 @@ Definition pevalQ := peval Q 0%Q Qadd' Qmul'.
 Definition a_genQ := a_gen Q 0%Q 1%Q Qadd' Qmul' Qdiv'.
 Definition abel_sumQ := abel_sum Q 0%Q 1%Q Qadd' Qmul'.
 Definition pwQ := pw Q 1%Q Qmul'.
+Definition vaddQ := vadd Q Qadd'.
+Definition vscaleQ := vscale Q Qmul'.      (* __imul__: func *= k, abel *= k (division: k = 1/a) *)
 
 (* abel value = alpha*y_up + beta*y_lo + gamma*Dlnry with rational alpha, beta,
    gamma (the model is linear in the three irrational quantities): the
